@@ -97,9 +97,9 @@ def families():
     qs.append(Q("hb_dealloc_then_alloc_opt_sw3", ["C12"], "thorough", "hb", "Optimistic", "S_HN", ALLOC_FREE, TOUCH_DEALLOC, [30, 17], 3, 1, n1=(1, 16), timeout=1800))
     # --- C06: crash of the victim at any step of its operation, reopen, one more operation by a fresh thread
     qs.append(Q("crash_in_alloc_opt", ["C06"], "quick", "crash", "Optimistic", "S_H", ALLOC, ALLOC, [22, 22], 1, 1, n1=(1, 16), role="crash_between_mark_and_unlink"))
-    qs.append(Q("crash_in_dealloc_opt", ["C06"], "quick", "crash", "Optimistic", "S_H", DEALLOC, ALLOC, [14, 22], 1, 1, n1=(1, 16)))
+    qs.append(Q("crash_in_dealloc_opt", ["C06"], "quick", "crash", "Optimistic", "S_HN", DEALLOC, ALLOC, [14, 22], 1, 1, n1=(1, 24)))
     qs.append(Q("crash_in_alloc_pess", ["C06"], "thorough", "crash", "Pessimistic", "S_H", ALLOC, ALLOC, [24, 24], 1, 1, n1=(1, 16), role="crash_between_mark_and_unlink"))
-    qs.append(Q("crash_in_dealloc_pess", ["C06"], "thorough", "crash", "Pessimistic", "S_H", DEALLOC, ALLOC, [16, 24], 1, 1, n1=(1, 16)))
+    qs.append(Q("crash_in_dealloc_pess", ["C06"], "thorough", "crash", "Pessimistic", "S_HN", DEALLOC, ALLOC, [16, 24], 1, 1, n1=(1, 24)))
     qs.append(Q("crash_in_bump_none", ["C06"], "thorough", "crash", "None", "S_E", ALLOC, ALLOC, [10, 10], 1, 1, n1=(1, 24)))
     return qs
 
